@@ -16,6 +16,7 @@ import (
 	"testing/synctest"
 	"time"
 
+	"github.com/markusressel/fan2go/internal/verifshim/env"
 	"github.com/markusressel/fan2go/internal/verifshim/mc"
 )
 
@@ -211,6 +212,43 @@ func vxC04Direct(rep *mc.Report, lo, hi, m int, mapName string) {
 		}
 	}
 	rep.AddDistinct(int64(256 * len(g.next)))
+	// one transient failed PWM write at any step of the approach must not disturb the sequence of requests
+	// (deviation bound 1 over the closed loop at constant curve value)
+	for _, v := range []int{0, 37, 128, 200, 255} {
+		for _, s := range []int{0, 90, 255} {
+			steps := bound
+			if steps > 45 {
+				steps = 45
+			}
+			for k := 0; k < steps; k++ {
+				fy := vxNewFixRole(vxCfg{Kind: "hwmon", NeverStop: lo > 0, Min: lo, Max: hi, Map: mapName, Algo: algo, StartPwm: s, StartMode: 1}, "replay")
+				prev := -999
+				for i := 0; i < steps+3; i++ {
+					if i == k {
+						fy.fs.Intercept = func(kind, path string, value int) *env.Result {
+							if kind != "read" && path == fy.dev.Pwm {
+								return &env.Result{Err: env.ErrInval(path)}
+							}
+							return nil
+						}
+					}
+					o := fy.vxCycle(vxSym{Curve: v, Rpm: 1000})
+					fy.fs.Intercept = nil
+					rep.Evaluations++
+					if o.Panic != "" || o.Err != nil {
+						rep.Violate(mc.Violation{Signature: "C04 cycle failed", Detail: fmt.Sprintf("%v %v", o.Panic, o.Err), Replay: vxC04Case{Cfg: cfg, V: v}})
+						return
+					}
+					if prev != -999 && (vxAbsI(o.Req-prev) > m || vxAbsI(o.Req-S[v]) > vxAbsI(prev-S[v])) {
+						rep.Violate(mc.Violation{Signature: "C04 request sequence disturbed by a single failed PWM write " + rc,
+							Detail: fmt.Sprintf("limits [%d,%d] m=%d v=%d start %d: PWM write of cycle %d refused; request went %d -> %d at cycle %d (steady value %d)", lo, hi, m, v, s, k, prev, o.Req, i, S[v]), Replay: vxC04Case{Cfg: cfg, V: v}})
+						return
+					}
+					prev = o.Req
+				}
+			}
+		}
+	}
 }
 
 var vxC04Deadline time.Time
